@@ -11,7 +11,7 @@ from kawin.precipitation import PrecipitateModel
 from kawin.precipitation.PrecipitationParameters import PrecipitationData
 from kawin.precipitation.parameters.Volume import VolumeParameter
 from kawin.solver.Solver import SolverType
-from .fakes import FakeBinaryTherm, FakeMultiTherm, FaultPlan
+from .fakes import FakeBinaryTherm, FakeMultiTherm, FaultPlan, LoggingTherm
 
 ATTRS = PrecipitationData.ATTRIBUTES
 
@@ -63,6 +63,8 @@ class Observer:
 
 
 def build(cfg):
+    if cfg.get("real") == "alzr":
+        return build_real_alzr(cfg)
     ph = cfg["phases"]
     names = [p["name"] for p in ph]
     per = {p["name"]: {k: p[k] for k in ("K", "xe0", "se", "xb", "xlim") if k in p} for p in ph}
@@ -109,6 +111,44 @@ def build(cfg):
     pb = cfg.get("pbm")
     if pb:
         m.setPBMParameters(cMin=pb[0], cMax=pb[1], bins=pb[2], minBins=pb[3], maxBins=pb[4], adaptive=pb[5])
+    m.setPSDrecording(True)
+    if cfg.get("constraints"):
+        m.setConstraints(**cfg["constraints"])
+    obs = Observer(m, cfg.get("cap", 1200))
+    m.addCouplingModel(obs)
+    return m, th, obs
+
+
+_REAL = {}
+
+
+def build_real_alzr(cfg):
+    """the repository's own Al-Zr binary set-up (kawin/tests/test_precipitation.py, example 01) behind a LoggingTherm"""
+    from kawin.thermo import BinaryThermodynamics
+    from kawin.tests.datasets import ALZR_TDB
+    if "alzr" not in _REAL:
+        t = BinaryThermodynamics(ALZR_TDB, ["AL", "ZR"], ["FCC_A1", "AL3ZR"], drivingForceMethod="tangent")
+        t.setDFSamplingDensity(2000); t.setEQSamplingDensity(500)
+        t.setDiffusivity(lambda T: 0.0768 * np.exp(-242000 / (8.314 * T)), "FCC_A1")
+        _REAL["alzr"] = t
+    th = LoggingTherm(_REAL["alzr"], FaultPlan(cfg.get("faults")))
+    _REAL["alzr"].clearCache()
+    m = PrecipitateModel(phases=["AL3ZR"], elements=["ZR"])
+    pb = cfg.get("pbm", (1e-10, 1e-8, 75, 50, 100, True))
+    m.setPBMParameters(cMin=pb[0], cMax=pb[1], bins=pb[2], minBins=pb[3], maxBins=pb[4], adaptive=pb[5])
+    m.setInitialComposition(cfg.get("x0", 4e-3))
+    temp = cfg.get("temp", ("const", 723.15))
+    import io, contextlib
+    with contextlib.redirect_stdout(io.StringIO()):
+        if temp[0] == "const": m.setTemperature(temp[1])
+        else: m.setTemperature(temp[1], temp[2])
+    m.setInterfacialEnergy(0.1)
+    Va = 0.405e-9 ** 3
+    m.setVolumeAlpha(Va, VolumeParameter.ATOMIC_VOLUME, 4)
+    m.setVolumeBeta(Va, VolumeParameter.ATOMIC_VOLUME, 4)
+    m.setNucleationDensity(grainSize=1, dislocationDensity=1e15)
+    m.setNucleationSite("dislocations")
+    m.setThermodynamics(th)
     m.setPSDrecording(True)
     if cfg.get("constraints"):
         m.setConstraints(**cfg["constraints"])
